@@ -200,8 +200,10 @@ example : True := by
   have := C17_detector_range asciiCC busyDetector hyphen [['x']] [] ['a', '-'] ['c'] (by simp) (by simp)
   trivial
 
-/-- the bigram count 11 exceeds 5 × the merged word's frequency: treated as two words -/
-example : determine asciiCC (some busyDetector) hyphen [['x'], ['a', '-']] [['c']] = .ok (false, none) := by
+/-- a bigram count above `factor` × the merged word's frequency (and above `factor`), for the factor of the
+    first call of end_start_are_bigram whatever it is now: treated as two words -/
+example : determine asciiCC (some { busyDetector with bigram := fun _ _ => 2 * Generated.C17.bigramFactorFirst + 1 })
+    hyphen [['x'], ['a', '-']] [['c']] = .ok (false, none) := by
   decide
 example : determine asciiCC (some { busyDetector with bigram := fun _ _ => 0 }) hyphen [['x'], ['a', '-']] [['c']] =
     .ok (true, some ['a', 'c']) := by decide
@@ -276,19 +278,59 @@ theorem C17_strip_only_breaks (B : BreakSet) (e s : Str) (he : e ≠ []) (hs : s
 
 example : removeWordBreakChars hyphen ['a', 'b', '-', '-'] ['-', 'c'] = .ok ['a', 'b', 'c'] := by decide
 
-/-- `remove_hyphen` on a word: total, removes at most two trailing characters, all from `-`, `=`, `:` -/
+/-- `remove_hyphen` on a word: total, removes at most two trailing characters, all from `-`, `=`, `:`
+    (the character set and the doubled hyphen of the source are regenerated; that they stay within the
+    statement's three hyphens is `C17_consts_hyphen_set_within_spec` / `C17_consts_double_hyphen_in_set`) -/
 theorem C17_remove_hyphen_only_breaks (w : Str) (hw : w ≠ []) :
     ∃ r t, removeHyphen w = .ok r ∧ w = r ++ t ∧ t.length ≤ 2 ∧ (∀ c ∈ t, c = '-' ∨ c = '=' ∨ c = ':') := by
   obtain ⟨r, t, h1, h2, h3, h4⟩ := removeHyphen_spec w hw
-  refine ⟨r, t, h1, h2, h3, ?_⟩
-  intro c hc
-  have := h4 c hc
-  simp only [hyphenSet, Bool.or_eq_true, decide_eq_true_eq] at this
-  rcases this with (h | h) | h
-  · exact Or.inl h
-  · exact Or.inr (Or.inl h)
-  · exact Or.inr (Or.inr h)
+  exact ⟨r, t, h1, h2, h3, fun c hc => hyphenSet_spec c (h4 c hc)⟩
 
-example : removeHyphen ['a', '-', '-'] = .ok ['a'] ∧ removeHyphen ['a', '=', '-'] = .ok ['a', '='] := by decide
+example : ∃ r t, removeHyphen ['a', '-', '-'] = .ok r ∧ ['a', '-', '-'] = r ++ t ∧ t.length ≤ 2 :=
+  let ⟨r, t, h1, h2, h3, _⟩ := C17_remove_hyphen_only_breaks ['a', '-', '-'] (by simp); ⟨r, t, h1, h2, h3⟩
+/-- with the character set and doubled hyphen as they are in the source now (whatever they are), a word ending
+    in the doubled hyphen loses … what the model computes; the result is a prefix of the word -/
+example : ∃ r, removeHyphen (['a'] ++ Generated.C17.doubleHyphen) = .ok r := ⟨_, rfl⟩
+
+/-- the same in terms of the source's own character set, whatever it is: only characters of that set go -/
+theorem C17_remove_hyphen_only_own_set (w : Str) (hw : w ≠ []) :
+    ∃ r t, removeHyphen w = .ok r ∧ w = r ++ t ∧ t.length ≤ 2 ∧ (∀ c ∈ t, c ∈ Generated.C17.hyphenChars) := by
+  obtain ⟨r, t, h1, h2, h3, h4⟩ := removeHyphen_spec w hw
+  exact ⟨r, t, h1, h2, h3, fun c hc => (hyphenSet_iff c).mp (h4 c hc)⟩
+
+example : ∃ r, removeHyphen (['a'] ++ Generated.C17.hyphenChars.take 1) = .ok r := ⟨_, rfl⟩
+
+/-! ### the regenerated literals (Generated/C17.lean): what the theorems above need of them
+
+Nothing for the factors, thresholds, `'-'` literals of the word-break decision and the default break
+characters: every theorem above is proved with those as unknown values.  The exceptions: the character
+set of `remove_hyphen` and the two blanks of `get_line_words`. -/
+
+/-- the doubled hyphen that `remove_hyphen` strips as a whole consists of characters of its own set, if it
+    can match at all (two characters, the last one in the set) -/
+theorem C17_consts_double_hyphen_in_set :
+    Generated.C17.doubleHyphen.length = 2 → Generated.C17.doubleHyphen.getLast?.all hyphenSet = true →
+      ∀ c ∈ Generated.C17.doubleHyphen, hyphenSet c = true :=
+  consts_double_hyphen_in_set
+
+/-- the character set of `remove_hyphen` is within the statement's hyphens `-`, `=`, `:` -/
+theorem C17_consts_hyphen_set_within_spec : ∀ c ∈ Generated.C17.hyphenChars, c ∈ specHyphens :=
+  consts_hyphen_set_within_spec
+
+example : specHyphens = ['-', '=', ':'] := rfl
+
+/-- the two blanks of `get_line_words` (`line[-2] == ' '`, `term == ' '`) are written by hand in the model
+    (`normLine`, `wordLoop`); these obligations tie them to the source: both are the single blank U+0020 -/
+theorem C17_consts_word_blanks : Generated.C17.normBlank = [' '] ∧ Generated.C17.skipTerm = [' '] :=
+  ⟨consts_norm_blank_is_blank, consts_skip_term_is_blank⟩
+
+example : lineWords asciiCC hyphen (some ['a', ' ', '-']) = .ok [['a', '-']] := by decide
+
+/-- the defaults: the functions called without `word_break_chars` are the same functions at the regenerated
+    default set, so every theorem above covers them (here: totality) -/
+theorem C17_default_total (cc : CharClass) (line : Option Str) : ∃ ws, lineWordsD cc none line = .ok ws :=
+  C17_total cc _ line
+
+example : ∃ ws, lineWordsD asciiCC none (some ['a', ' ', 'b']) = .ok ws := ⟨_, rfl⟩
 
 end Pagexml.C17
